@@ -199,12 +199,21 @@ pub fn configs(tier: Tier) -> Vec<Cfg> {
             v.push(Cfg { aimd: true, initial, max, deposit, withdraw, min, programs: p.clone() });
         }
     }
+    // debugging aid: VERIF_ONLY=<substring of a configuration label>
+    if let Ok(only) = std::env::var("VERIF_ONLY") {
+        v.retain(|c| c.label().contains(&only));
+    }
     v
 }
 
 pub fn check_cfg(cfg: &Cfg, tier: Tier, rep: &mut Report) {
     let site = if cfg.aimd { "AimdBudget" } else { "TokenBucketBudget" };
-    let bounds: Vec<Option<usize>> = tier.pick(vec![Some(0), Some(1), Some(2)], vec![Some(0), Some(1), Some(2), None]);
+    // thorough: the unbounded search only where it is small (two threads, at most three
+    // operations); larger programs go up to three preemptions (CAS retry loops make their
+    // unbounded schedule space run into millions)
+    let ops: usize = cfg.programs.iter().map(|p| p.len()).sum();
+    let small = cfg.programs.len() == 2 && ops <= if cfg.aimd { 2 } else { 3 };
+    let bounds: Vec<Option<usize>> = tier.pick(vec![Some(0), Some(1), Some(2)], if small { vec![Some(0), Some(1), Some(2), None] } else if cfg.aimd && cfg.programs.len() >= 3 { vec![Some(0), Some(1), Some(2)] } else { vec![Some(0), Some(1), Some(2), Some(3)] });
     let spurious = tier == Tier::Thorough;
     let spec = cfg.spec(spurious);
     let seq = ilv::sequential_outcomes(&spec, |b| b.observe());
@@ -220,7 +229,7 @@ pub fn check_cfg(cfg: &Cfg, tier: Tier, rep: &mut Report) {
     let mut found: Vec<(String, String, Vec<usize>)> = vec![];
     // wall-clock cap per configuration (the unbounded search of three-thread programs with
     // CAS retry loops can run to millions of schedules); a capped bound is reported as such
-    ilv::set_deadline(Some(std::time::Instant::now() + std::time::Duration::from_secs(tier.pick(20, 12))));
+    ilv::set_deadline(Some(std::time::Instant::now() + std::time::Duration::from_secs(tier.pick(20, 180))));
     for b in bounds {
         let mut local_found: Vec<(String, String, Vec<usize>)> = vec![];
         let stats = ilv::explore(&spec, b, tier.pick(200_000, 3_000_000), |x, shared, choices| {
